@@ -59,6 +59,18 @@ def rel_err(out, order, ref):
     return float(np.linalg.norm(te.dense_of(out, order) - ref)) / scale
 
 
+def heavy(tm):
+    """Trees on which one two-site step costs seconds: hop_expr2 asks opt_einsum for an optimal contraction path of
+    the 8..10 operands of a two-site problem with arity-3 nodes at every local step."""
+    return tm.features["max_arity"] >= 3 and tm.features["n_nodes"] >= 6
+
+
+def allow_ps2(ctx, tm):
+    if not heavy(tm):
+        return True
+    return ctx.tier != "quick" and bool(ctx.rng.random() < 0.3)
+
+
 def mode_of(imag):
     return "imag" if imag else "real"
 
@@ -288,6 +300,9 @@ def oracle_F(ctx, tm, full, qntot):
     lim = int(rng.integers(1, max(caps)))
     start = te.truncated_state(ctx, tm, full, lim)
     for sc in ("prop_and_compress_tdrk4", "tdvp_ps2"):
+        if sc == "tdvp_ps2" and not allow_ps2(ctx, tm):
+            ctx.cls("ps2-skipped-heavy-tree")
+            continue
         cur = start
         for _ in range(2):
             imag = bool(rng.random() < 0.3)
@@ -311,6 +326,8 @@ def oracle_history(ctx, tm, full, psi, qntot, complete):
         sc = SCHEMES[int(rng.integers(0, 4))]
         if sc == "tdvp_vmf" and len(tm.tree.node_list) > 6 and rng.random() < 0.7:
             sc = "tdvp_ps2"
+        if sc == "tdvp_ps2" and not allow_ps2(ctx, tm):
+            sc = "tdvp_ps"
         imag = bool(rng.random() < 0.4)
         order = te.ORDER[sc] if sc != "tdvp_ps" else ps_order(complete)
         x = step_size(ctx, sc, order, imag) * float(rng.uniform(0.4, 1.0))
@@ -583,7 +600,11 @@ def run_case(ctx):
         chosen = list(dict.fromkeys(chosen))
         ctx.cls("vmf-skipped-large-tree")
     for sc in chosen:
-        for imag in (False, True):
+        modes = (False, True)
+        if sc == "tdvp_ps2" and heavy(tm) and ctx.tier == "quick":
+            modes = (bool(idx % 2),)
+            ctx.cls("ps2-one-mode-heavy-tree")
+        for imag in modes:
             oracle_A(ctx, tm, sc, full, psi, q, imag, complete)
             if ctx.violations:
                 break
@@ -592,13 +613,17 @@ def run_case(ctx):
     if "tdvp_ps" in chosen and complete and not ctx.violations:
         oracle_ps_incomplete(ctx)
     # default (normalised) call of one scheme
-    oracle_normalised(ctx, tm, chosen[int(rng.integers(0, len(chosen)))] if chosen[0] != "tdvp_vmf" else chosen[-1], full, psi, q,
-                      bool(rng.random() < 0.5), complete)
+    cands = [s for s in chosen if not (s == "tdvp_ps2" and heavy(tm)) and not (s == "tdvp_vmf" and len(tree.node_list) > 5)]
+    cands = cands or ["tdvp_ps"]
+    oracle_normalised(ctx, tm, cands[int(rng.integers(0, len(cands)))], full, psi, q, bool(rng.random() < 0.5), complete)
 
     extra = (idx + idx // 8) % 8
-    light = [s for s in chosen if s != "tdvp_vmf"] or ["tdvp_ps2"]
+    light = [s for s in chosen if s != "tdvp_vmf" and (s != "tdvp_ps2" or allow_ps2(ctx, tm))] or ["tdvp_ps"]
     if extra == 0:
-        oracle_D(ctx, tm, chosen[int(rng.integers(0, len(chosen)))], full, psi, q, bool(rng.random() < 0.5), complete)
+        d_sc = chosen[int(rng.integers(0, len(chosen)))]
+        if d_sc == "tdvp_ps2" and not allow_ps2(ctx, tm):
+            d_sc = light[0]
+        oracle_D(ctx, tm, d_sc, full, psi, q, bool(rng.random() < 0.5), complete)
     elif extra in (1, 7):
         oracle_E(ctx, tm, full, q)
         if extra == 7:
